@@ -54,24 +54,28 @@ namespace sqf::runtime
             iterator find(std::string index) { return m_children.find(index); }
             void push_back(std::string key, size_t target_id)
             {
+                // target_id == invalid_id is the marker `delete key;` leaves: it hides the
+                // name for lookups but is no entry of its own (count / select do not see it).
                 auto res = m_children.find(key);
-                if (res == m_children.end())
-                {
-                    m_children_vec.push_back(target_id);
-                }
-                else if (res->second == target_id)
+                if (res != m_children.end() && res->second == target_id)
                 {
                     return;
                 }
-                else
-                {
-                    for (auto& it : m_children_vec)
+                if (res != m_children.end() && res->second != invalid_id)
+                { // an entry of that name exists in the ordered list: replace or remove it
+                    for (auto it = m_children_vec.begin(); it != m_children_vec.end(); ++it)
                     {
-                        if (it == res->second)
+                        if (*it == res->second)
                         {
-                            it = target_id;
+                            if (target_id == invalid_id) { m_children_vec.erase(it); }
+                            else { *it = target_id; }
+                            break;
                         }
                     }
+                }
+                else if (target_id != invalid_id)
+                {
+                    m_children_vec.push_back(target_id);
                 }
                 m_children[key] = target_id;
             }
@@ -289,8 +293,8 @@ namespace sqf::runtime
 
                 // Find the targeted config ...
                 auto find_res = container.find(target);
-                if (find_res == container.end())
-                { // ... not found
+                if (find_res == container.end() || find_res->second == config::invalid_id)
+                { // ... not found (or only the marker of an earlier `delete`)
                     // Create new container
                     auto& created = m_confighost.m_containers.emplace_back(m_confighost.m_containers.size(), target); // container might be invalidated here due to m_containers resizing.
 
